@@ -92,7 +92,11 @@ def lake_build(targets):
 
 
 def registry():
-    return json.load(open(os.path.join(LEAN, "registry.json")))
+    """one file per property: lean/registry.d/Cxx.json = {"modules": [...], "theorems": [...]}"""
+    reg = {}
+    for f in sorted(glob.glob(os.path.join(LEAN, "registry.d", "*.json"))):
+        reg[os.path.basename(f)[:-5]] = json.load(open(f))
+    return reg
 
 
 def audit(prop, reg):
